@@ -91,3 +91,138 @@ CONTRACTS[F + 'SupDSG.resolve'] = dict(
     modifies=[],
     unchanged_on_raise=False,
 )
+
+
+# ---------------------------------------------------------------- SupSelChoiceOptionMapping.resolve (C20)
+from .c_traversal import EDGE          # noqa: E402
+from .c_choices import ITER_OUT_T      # noqa: E402
+
+ENUMS = {'EdgeType': {'DERIVES': 1, 'CONNECTS': 2, 'EXCLUDES': 3, 'INCOMPATIBILITY': 4}}
+CLASSES['NxGraph'] = {'edge_set': f'Set[{EDGE}]', 'nodes': 'Set[Ref]'}
+CLASSES['SupSelChoiceOptionMapping'] = {'_src_choice_originating_node': 'Optional[Ref]', '_src_choice_node': 'Ref',
+                                        '_mapping': 'ODict[Optional[Ref],Ref]'}
+
+ITEMS = 'self._mapping.items_list'
+# the option of the source choice that is wired to the originating node (derivation edge) and is a key of the mapping
+TAKEN = f"(exists('e:{EDGE}', e in src_dsg.graph.edge_set and e[0] == self._src_choice_originating_node and e[3] == EdgeType.DERIVES and e[1] == {ITEMS}[j][0]))"
+
+CONTRACTS[F + 'SupSelChoiceOptionMapping.resolve'] = dict(
+    properties=['C20'],
+    types={'self': 'Ref[SupSelChoiceOptionMapping]', 'sup_dsg': 'Ref[SupDSGX]', 'sup_choice_node': 'Ref', 'src_dsg': 'Ref[SrcDSG]'},
+    returns='Ref',
+    funcs={'ctx': (['Ref'], 'Str')},
+    locals={'src_nodes': 'Set[Str]', 'sup_tgt_option_node': 'Ref', 'originating_out_nodes': 'Set[Ref]',
+            'src_selected_opt_nodes': 'Set[Ref]', 'mapping_ctx': 'Dict[Str,Ref]'},
+    post_locals=['sup_tgt_option_node'],
+    requires={
+        'initialized': 'self._src_choice_originating_node is not None',
+        'selection-choice': 'isinstance(sup_choice_node, SelectionChoiceNode)',
+        'keys-distinct': f'forall(a, 0, len({ITEMS}), forall(b, 0, len({ITEMS}), implies(a != b, {ITEMS}[a][0] != {ITEMS}[b][0])))',
+        # two mapped options are told apart by their context string (str_context is the node's identity across
+        # copies of the source graph)
+        'contexts-distinct': f'forall(a, 0, len({ITEMS}), forall(b, 0, len({ITEMS}), implies(a != b and {ITEMS}[a][0] is not None and {ITEMS}[b][0] is not None, ctx({ITEMS}[a][0]) != ctx({ITEMS}[b][0]))))',
+        'originating-node-is-a-node': 'isinstance(self._src_choice_originating_node, DSGNode)',
+    },
+    defs={
+        'active': ((), "exists('m:Ref', m in src_dsg.graph.nodes and isinstance(m, DSGNode) and ctx(m) == ctx(self._src_choice_originating_node))"),
+        'taken': (('j',), f'{ITEMS}[j][0] is not None and {TAKEN}'),
+    },
+    calls={
+        'node.str_context': dict(params=[], returns='Str', modifies=[], receiver='node', pure_expr='ctx(node)'),
+        'src_originating_node.str_context': dict(params=[], returns='Str', modifies=[], receiver='src_originating_node', pure_expr='ctx(src_originating_node)'),
+        'list(src_selected_opt_nodes)[0].str_context': dict(params=[], returns='Str', modifies=[], receiver='list(src_selected_opt_nodes)[0]', pure_expr='ctx(list(src_selected_opt_nodes)[0])'),
+        'iter_out_edges': ITER_OUT_T,
+        'sup_dsg.get_for_apply_selection_choice': dict(params=['choice', 'option'], returns='Ref', modifies=[], assumed=True),
+    },
+    may_raise=['SupResolveError'],
+    must_raise={
+        'inactive-without-none-entry': ('SupResolveError', 'not active() and None not in self._mapping'),
+        'no-mapped-option-taken': ('SupResolveError', f'active() and forall(j, 0, len({ITEMS}), not taken(j))'),
+        'two-mapped-options-taken': ('SupResolveError', f'active() and exists(a, 0, len({ITEMS}), exists(b, 0, len({ITEMS}), a != b and taken(a) and taken(b)))'),
+    },
+    ensures={
+        'inactive-source-choice-takes-the-none-entry': ('property', 'implies(not active(), final_sup_tgt_option_node == self._mapping[None])'),
+        'taken-option-decides': ('property', f'implies(active(), forall(j, 0, len({ITEMS}), implies(taken(j), final_sup_tgt_option_node == {ITEMS}[j][1])))'),
+    },
+    modifies=[],
+    unchanged_on_raise=False,
+)
+
+
+# ---------------------------------------------------------------- bounded domain (executable contract on real code)
+class _ItemsDict(dict):
+    @property
+    def items_list(self):
+        return list(self.items())
+
+
+def _domain_sel_option_mapping(n):
+    import os
+    import random
+    from pyvc.replay import segment_callable
+    from adsg_core.graph.adsg_basic import BasicDSG
+    from adsg_core.graph.adsg_nodes import NamedNode, DSGNode, SelectionChoiceNode, DesignVariableNode
+    from adsg_core.graph.graph_edges import EdgeType, get_edge_type
+    from adsg_core.graph.sup.dsg import SupSelChoiceOptionMapping
+    key = F + 'SupSelChoiceOptionMapping.resolve'
+    seg = segment_callable(key, dict(CONTRACTS[key], stop_before='return sup_dsg.get_for_apply_selection_choice'),
+                           os.environ.get('VERIF_REPO', '/repo'))
+    rng = random.Random(2020 + int(os.environ.get('VERIF_SEED', '0') or 0))
+    for it in range(n):
+        # source graph: start S; outer choice C0 at S with options A, B; the mapped choice C1 sits at A (conditional)
+        # or at S (permanent); its options O0..Ok-1, possibly with the same name under different parents
+        S, A, B = NamedNode('S'), NamedNode('A'), NamedNode('B')
+        k = rng.randint(2, 4)
+        same_names = rng.random() < 0.3
+        # same displayed name, different context string: design-variable nodes named alike with different bounds
+        opts = [DesignVariableNode('O', bounds=(0., 1. + i)) for i in range(k)] if same_names else \
+            [NamedNode(f'O{i}') for i in range(k)]
+        conditional = rng.random() < 0.6
+        origin = A if conditional else S
+        src = BasicDSG()
+        src.add_selection_choice('C0', S, [A, B])
+        c1 = src.add_selection_choice('C1', origin, opts)
+        extra_direct = rng.random() < 0.15
+        if extra_direct:                    # the originating node also derives a mapped option directly
+            src.add_edge(origin, opts[-1])
+        src = src.set_start_nodes({S})
+        sup_opts = [NamedNode(f'T{i}') for i in range(k + 1)]
+        mapping = {}
+        items = [(o, rng.choice(sup_opts[:k])) for o in opts]
+        with_none = rng.random() < 0.75
+        if with_none:
+            items.insert(rng.randint(0, len(items)), (None, sup_opts[k]))
+        if rng.random() < 0.3:
+            rng.shuffle(items)
+        for a, b in items:
+            mapping[a] = b
+        real = SupSelChoiceOptionMapping(c1, _ItemsDict(mapping))   # a dict that also shows its item sequence
+        real._src_choice_originating_node = origin
+        # state of the source graph at resolve time
+        mode = rng.choice(['untaken', 'taken', 'taken', 'taken', 'inactive'])
+        g = src
+        try:
+            c0 = [c for c in g.choice_nodes if isinstance(c, SelectionChoiceNode) and c.decision_id == 'C0'][0]
+            if mode == 'inactive' and conditional:
+                g = g.get_for_apply_selection_choice(c0, B)
+            elif mode == 'taken':
+                if conditional:
+                    g = g.get_for_apply_selection_choice(c0, A)
+                c1n = [c for c in g.choice_nodes if isinstance(c, SelectionChoiceNode) and c.decision_id == 'C1']
+                if c1n:
+                    g = g.get_for_apply_selection_choice(c1n[0], rng.choice(g.get_option_nodes(c1n[0])))
+        except Exception:
+            continue
+        es = {(u, v, kk, get_edge_type((u, v, kk, d))) for u, v, kk, d in g.graph.edges(keys=True, data=True)}
+        g.graph.edge_set = es
+        sup_choice = SelectionChoiceNode('SC')
+        env = {'self': real, 'src_dsg': g, 'sup_dsg': None, 'sup_choice_node': sup_choice, 'EdgeType': EdgeType,
+               'DSGNode': DSGNode, 'SelectionChoiceNode': SelectionChoiceNode, 'ctx': (lambda nd: nd.str_context())}
+        desc = (f'SupSelChoiceOptionMapping(C1 at {origin}, mapping={[(str(a), str(b)) for a, b in mapping.items()]}).resolve on the source graph '
+                f'[{mode}{", conditional" if conditional else ""}{", same option names" if same_names else ""}{", extra direct edge" if extra_direct else ""}] '
+                f'nodes={sorted(str(x) for x in g.graph.nodes)}')
+        yield (env, (lambda g=g, real=real, sup_choice=sup_choice: seg(self=real, sup_dsg=None, sup_choice_node=sup_choice, src_dsg=g)),
+               {'Ref': list(g.graph.nodes) + [x for x in opts if x not in g.graph.nodes], EDGE: list(es)}, desc)
+
+
+DOMAIN = {F + 'SupSelChoiceOptionMapping.resolve': _domain_sel_option_mapping}
